@@ -188,8 +188,7 @@ def gen_program(rng, force=None):
             if fam == "rshdefect":
                 k = rng.choice([0, 0, dr["b"] + 1, 2 * dr["b"], rng.range(0, dr["size"] * dr["b"]), rng.range(0, (dr["size"] + 2) * dr["b"])])
             else:
-                # the sound region of vec_znx_rsh_assign: one limb step, k ≠ 0 (see known findings)
-                k = rng.range(1, dr["b"]) if rng.chance(7, 8) else rng.range(0, (dr["size"] + 2) * dr["b"])
+                k = rng.range(0, (dr["size"] + 2) * dr["b"])
             ops.append((name, k, r))
         elif name == "lsh_assign":
             ops.append((name, r, rng.range(0, (dr["size"] + 2) * dr["b"])))
@@ -352,12 +351,15 @@ def admissible(name, r, a=None, b=None):
         return r["b"] == a["b"] and r["rank"] >= a["rank"]
     if name in ("sub_assign", "sub_negate_assign"):
         return r["b"] == a["b"] and (r["rank"] == a["rank"] or a["rank"] == 0)
-    if name in ("negate", "mul_xp_minus_one", "normalize"):
+    if name == "normalize":
         return r["rank"] == a["rank"]
+    if name in ("negate", "mul_xp_minus_one"):
+        return r["b"] == a["b"] and r["rank"] == a["rank"]
     if name in ("copy", "rotate"):
-        return r["rank"] == a["rank"] or a["rank"] == 0
+        return r["b"] == a["b"] and (r["rank"] == a["rank"] or a["rank"] == 0)
     if name == "ggsw_rotate":
-        return r["dnum"] <= a["dnum"] and r["dsize"] == a["dsize"] and r["rank"] == a["rank"]
+        # glwe_rotate on every entry carries the radix assertion
+        return r["dnum"] <= a["dnum"] and r["dsize"] == a["dsize"] and r["rank"] == a["rank"] and (r["b"] == a["b"] or r["dnum"] == 0)
     return True
 
 
